@@ -174,6 +174,8 @@ func (b backend) ReceiveMinedHeader(h *types.WorkObject) error {
 }
 
 type Net struct {
+	// OnPending, when set, sees every block the worker assembled (full body) before it is sealed
+	OnPending func(full *types.WorkObject)
 	Nodes   [3]*Node
 	mu      sync.Mutex
 	mined   [3][]*types.WorkObject
@@ -453,6 +455,9 @@ func (n *Net) PendingFull(heads Heads, o MineOpts) (*types.WorkObject, error) {
 	}
 	woh.SetTime(maxT + td)
 	zone.Core.Slice().VerifRegisterPendingBody(ph)
+	if n.OnPending != nil {
+		n.OnPending(ph)
+	}
 	return ph, nil
 }
 
